@@ -50,6 +50,9 @@ def sym_grad(u):
 def div(u):
     if u.div is not None:
         return u.div
+    if len(u.grad.shape) == 5:
+        # matrix-valued field: (div u)_i = d u_ij / d x_j
+        return jnp.einsum('ijj...->i...', u.grad)
     if len(u.grad.shape) == 4:
         return jnp.einsum('ii...', u.grad)
     return u.grad[0]
